@@ -292,7 +292,12 @@ Roof_Step(n, s, x) ==
                   !.ss = IF s.i > n THEN SS_Step(@, hp) ELSE @]
 Roof_Out(m, s) == SS_Out(m, s.ss)
 
-(* TrendFlex / ReFlex: the queue of filter values doubles as the filter's memory *)
+(* TrendFlex / ReFlex: the queue of filter values doubles as the filter's memory.  Since the fix "differences below 16 ulps of
+   the smoothed value are rounding noise" (trend_flex.rs / re_flex.rs NOISE_ULPS) a mean difference d with |d| <= 16 * 2^-52 * |filt|
+   counts as 0: on a flat input the f64 smoother ends in a limit cycle a few ulps wide, which the normalisation d / sqrt(ms)
+   blew up to order one while the exact value decays to 0. *)
+TwoP52 == WMul(WFromInt(67108864), WFromInt(67108864))
+FlexFloor(d, filt) == IF WCmp(WMul(WAbs(d), TwoP52), WMul(WFromInt(16), WAbs(filt))) <= 0 THEN FZero ELSE d
 Flex_Init(n) == [co |-> FlexCoef(n), lastv |-> FZero, lastm |-> FZero, q |-> <<>>, out |-> MNone, p |-> FALSE]
 Flex_Step(n, s, x, reflex) ==
     LET lv == IF s.q = <<>> THEN x ELSE s.lastv
@@ -307,7 +312,7 @@ Flex_Step(n, s, x, reflex) ==
         slope == FDivInt(FSub(q1[1], filt), n)
         dsum == IF reflex THEN FSumFrom(Force([i \in 1..len |-> FSub(FAdd(filt, FMulInt(i - 1, slope)), q1[len - i + 1])]), 1)
                 ELSE FSumFrom(Force([i \in 1..len |-> FSub(filt, q1[len - i + 1])]), 1)
-        d == FDivInt(dsum, n)
+        d == FlexFloor(FDivInt(dsum, n), filt)
         ms == FAdd(FMul(FQ(4, 100), FSq(d)), FMul(FQ(96, 100), s.lastm))
         out == IF ms[1] > 0 THEN MF(FDiv(d, FSqrt(ms))) ELSE (IF reflex THEN s.out ELSE MQ(QZero))
     IN  [s EXCEPT !.lastv = x, !.lastm = ms, !.q = q1, !.out = out]
